@@ -50,7 +50,7 @@ theorem leaf_pull (k : LeafKind) (st : LeafSt) (stopped : Bool) (hph : st.ph = .
         simp only [leafDen]
         rw [this, List.range'_succ]
         simp only [PullSpec, leafRem, hph]
-        refine ⟨trivial, ?_, by simp; omega⟩
+        refine ⟨trivial, ?_, by omega⟩
         have e1 : lo + st.k + 1 = lo + (st.k + 1) := by omega
         have e2 : hi - (lo + st.k) - 1 = hi - (lo + (st.k + 1)) := by omega
         rw [e1, e2]
